@@ -683,7 +683,8 @@ class GeneInfo:
         return self.reference_region[left_pos:right_pos+1]
 
     def set_reference_sequence(self, start, end, chr_record):
-        self.all_read_region_start = start
+        # regions of reads starting at the first base of a chromosome begin at 0
+        self.all_read_region_start = max(1, start)
         self.all_read_region_end = end
         self.reference_region = \
             str(chr_record[self.all_read_region_start - 1:self.all_read_region_end])
